@@ -40,6 +40,11 @@ class InfraError(Exception):
     pass
 
 
+class HarnessBuildError(InfraError):
+    """the correspondence harness (a legitimate user program of the library) no longer compiles against this tree"""
+    pass
+
+
 def log(*a):
     print(*a, file=sys.stderr, flush=True)
 
@@ -255,7 +260,7 @@ def build_harness(name, sources, extra_flags=(), sanitize=True, cxx=None, libs=(
     t0 = time.time()
     rc, out, err = sh(cmd, timeout=1800)
     if rc != 0:
-        raise InfraError("harness build failed (%s):\n%s" % (name, (out + err)[-4000:]))
+        raise HarnessBuildError("harness build failed (%s):\n%s" % (name, (out + err)[-4000:]))
     os.replace(exe + ".tmp%d" % os.getpid(), exe)
     log("built harness %s in %.1fs" % (name, time.time() - t0))
     # drop stale builds of the same harness (only old ones: a concurrent check against another tree may be using a sibling)
